@@ -78,6 +78,16 @@ def terminated_branch_case(tree, read, kind, info):
     line, col, name = read['line'], read['col'], read['name']
     site = info.get('site')
     for s in ast.walk(tree):
+        if isinstance(s, (ast.For, ast.While)) and isinstance(s.body[-1], (ast.Return, ast.Raise)):
+            # the loop body never reaches the back edge (nor, having run once, the else clause)
+            inside = (s.lineno, s.col_offset) <= (line, col) <= (s.end_lineno, s.end_col_offset)
+            if inside or (line, col) > (s.end_lineno, s.end_col_offset):
+                if kind == 'phantom-definition' and site and _within(s.body, site[0], site[1]):
+                    return True
+                if kind in ('never-bound-not-flagged',) and _binds(s.body, name):
+                    return True
+                if kind == 'undefined-marker-but-always-bound' and not _binds(s.body, name):
+                    return True
         if not isinstance(s, (ast.If, ast.Try, ast.With)):
             continue
         if (line, col) <= (s.end_lineno, s.end_col_offset):
